@@ -47,7 +47,7 @@ def check_c14(tier):
     jl, meta = [], []
     for i in range(n_refs):
         ref = refgen.random_reference(r, n_genes=r.randrange(1, 3), coding_p=0.7, max_exons=3, aa_len=(6, 12), nc_len=(20, 45),
-                                      isoform_p=0.4, flank_p=0.8, utr5=(0, 6), utr3=(0, 8))
+                                      isoform_p=0.5, flank_p=0.8, utr5=(0, 6), utr3=(0, 8), iso_terminal_p=0.5)
         if r.random() < 0.5:
             for t in ref.txs.values():
                 if t.coding and r.random() < 0.6:
@@ -134,6 +134,68 @@ def check_c14(tier):
                                  start=x['start'], ref=x['ref'][0], alt=x['alt'][0]) for x in o['records']]
             cases.append(c)
             info.append((ref, v, o))
+    # the same VEP rows through the real command line (parseVEP reads one file with the rows of every transcript in random
+    # order, converts them in one process and writes one GVF): each row's outcome is read off the emitted GVF - the record whose
+    # TRANSCRIPT_ID and GENOMIC_POSITION are the row's - and goes through the same VepTrace clauses
+    cj, cmeta = [], []
+    for ri, ((ref, vm, rm, vep, redi), rr) in enumerate(zip(meta, res)):
+        if not rr.get('ok') or not rr['results'][0]['ok'] or not vep:
+            continue
+        d = os.path.join(work, f'r{ri}')
+        rows = list(range(len(vep))); r.shuffle(rows)
+        with open(os.path.join(d, 'vep.tsv'), 'w') as fh:
+            fh.write('#Uploaded_variation\tLocation\tAllele\tGene\tFeature\tFeature_type\tConsequence\tcDNA_position\tCDS_position\t'
+                     'Protein_position\tAmino_acids\tCodons\tExisting_variation\tExtra\n')
+            for k in rows:
+                v = vep[k]
+                fh.write('\t'.join(['.', v['location'], v['allele'], v['gene'], v['tx'], 'Transcript', 'missense_variant', '-', '-', '-',
+                                    '-', '-', '-', 'IMPACT=MODERATE']) + '\n')
+        paths = dict(genome_fasta=os.path.join(d, 'genome.fasta'), annotation_gtf=os.path.join(d, 'annotation.gtf'))
+        outp = os.path.join(d, 'vep.gvf')
+        cj.append(dict(argv=['parseVEP', '-i', os.path.join(d, 'vep.tsv'), '-o', outp, '-g', paths['genome_fasta'], '-a',
+                             paths['annotation_gtf'], '--source', 'gSNP', '--skip-failed'], read_gvf=outp))
+        cmeta.append(ri)
+    cres = jobs.run_jobs('run_parser_case.py', [dict(jobs=[j]) for j in cj], timeout=3000) if cj else []
+    n_cli = 0
+    for ri, rr in zip(cmeta, cres):
+        ref, vm, rm, vep, redi = meta[ri]
+        out = res[ri]['results'][0]['out']
+        if not rr.get('ok') or not rr['results'][0]['ok'] or rr['results'][0]['out']['status'] != 'ok':
+            x = rr['results'][0] if rr.get('ok') else rr
+            rep.violation(f"vep-cli:{env.canon_hash(ref.gtf_lines())}", f"parseVEP command line failed: "
+                          f"{(x.get('out') or {}).get('status') or x.get('error')}", dict(gtf=ref.gtf_lines(), chroms=ref.chroms,
+                                                                                      log=(x.get('out') or {}).get('log', '')[-600:]))
+            continue
+        recs = []
+        for line in (rr['results'][0]['out'].get('gvf') or '').splitlines():
+            if line.startswith('#'):
+                continue
+            f = line.split('\t')
+            at = dict(kv.split('=', 1) for kv in f[7].split(';'))
+            recs.append(dict(tx=at['TRANSCRIPT_ID'], loc=at['GENOMIC_POSITION'], start=int(f[1]) - 1, ref=f[3], alt=f[4], used=False))
+        order = sorted(range(len(vep)), key=lambda k: out['vep'][k]['outcome'] != 'record')     # rows the classes accept first
+        cli_out = [None] * len(vep)
+        for k in order:
+            v, o = vep[k], out['vep'][k]
+            cands = [q for q in recs if not q['used'] and q['tx'] == v['tx'] and q['loc'] == v['location']]
+            if o['outcome'] == 'record':
+                cands = [q for q in cands if q['start'] == o['rec']['start'] and q['ref'] == ''.join(o['rec']['ref'])
+                         and q['alt'] == ''.join(o['rec']['alt'])] or []
+            if cands:
+                q = cands[0]; q['used'] = True
+                cli_out[k] = dict(outcome='record', rec=dict(start=q['start'], end=q['start'] + len(q['ref']), ref=list(q['ref']), alt=list(q['alt'])))
+            else:
+                cli_out[k] = dict(outcome='reject_start')
+        for k, (c, v) in enumerate(zip(vm, vep)):
+            o = cli_out[k]
+            c = dict(c, outcome=o['outcome'], rec=o.get('rec') or dict(start=0, end=0, ref=[], alt=[]))
+            cases.append(c); info.append((ref, dict(v, via='parseVEP command line'), o)); n_cli += 1
+        stray = [q for q in recs if not q['used']]
+        if stray:
+            rep.violation(f"vep-cli-stray:{env.canon_hash([ref.gtf_lines(), stray[:3]])}",
+                          f"parseVEP wrote {len(stray)} records that belong to no input row, e.g. {stray[0]}",
+                          dict(gtf=ref.gtf_lines(), chroms=ref.chroms, stray=stray[:5]))
+    rep.part('vep_command_line', rows=n_cli)
     verdicts = tlc_cases('VepTrace', cases, work, 'vep', rep)
     nrec = 0
     for (ref, v, o), vs in zip(info, verdicts):
